@@ -26,6 +26,31 @@ func init() {
 	engines["range"] = rangeEngine
 }
 
+// rangeSizesZS: sizes of the "fstreezs" kind - zstd-compressed objects whose payload is only half compressible, so that
+// the STORED form is larger than the 20 KiB header buffer (the periodic payload of the other kinds compresses to
+// a few hundred bytes); the largest one outruns the decoder's read-ahead
+var rangeSizesZS = []int{160000, 262144 + 77, 1600<<10 + 13}
+
+// semiPayload: alternating 32-byte runs of hash bytes and of a short period (kept in step with Model/Range.lean).
+func semiPayload(size, seed int) []byte {
+	b := make([]byte, size)
+	for i := range b {
+		if (i>>5)&1 == 0 {
+			b[i] = byte((uint32(i)*2654435761 + uint32(seed)*97) >> 16)
+		} else {
+			b[i] = byte((i*7 + seed) % 251)
+		}
+	}
+	return b
+}
+
+func rangePayload(kind string, size int) []byte {
+	if kind == "fstreezs" {
+		return semiPayload(size, size)
+	}
+	return detPayload(size, size)
+}
+
 var rangeSizes = []int{0, 1, 2, 3, 7, 64, 255, 4096, 5000, 20 << 10, 40<<10 - 30, 40 << 10, 40<<10 + 50, 70000, 131072 + 77}
 
 type rangeLayers struct {
@@ -47,7 +72,7 @@ func (l *rangeLayers) close() {
 }
 
 func rangeAddr(kind string, size int) oid.Address {
-	k := map[string]int{"fstree": 1, "fstreez": 2, "combined": 3, "shard": 4, "wcshard": 5, "engine": 6}[kind]
+	k := map[string]int{"fstree": 1, "fstreez": 2, "combined": 3, "shard": 4, "wcshard": 5, "engine": 6, "fstreezs": 7}[kind]
 	return numAddr(k, size+1)
 }
 
@@ -84,6 +109,19 @@ func rangeSetup() *rangeLayers {
 	}
 	if err := l.comb.PutBatch(batch); err != nil {
 		panic(err)
+	}
+	for _, sz := range rangeSizesZS {
+		a := rangeAddr("fstreezs", sz)
+		obj := mkObject(0, 0, semiPayload(sz, sz))
+		obj.SetContainerID(a.Container())
+		obj.SetID(a.Object())
+		z := enc.EncodeAll(obj.Marshal(), nil)
+		if len(z) < 22<<10 {
+			panic(fmt.Sprintf("range setup: the compressed form of size %d is only %d bytes", sz, len(z)))
+		}
+		if err := l.plain.Put(a, z); err != nil {
+			panic(err)
+		}
 	}
 	return l
 }
@@ -214,7 +252,7 @@ func rangeEngine(c *runCtx) error {
 					err = perr
 				} else {
 					switch kind {
-					case "fstree", "fstreez":
+					case "fstree", "fstreez", "fstreezs":
 						if o.kv["api"] == "rpr" && mode == 1 {
 							rc, err = lay.plain.ReadPayloadRange(addr, first, second, make([]byte, 40<<10), func([]byte) error { return nil })
 						} else {
@@ -241,7 +279,7 @@ func rangeEngine(c *runCtx) error {
 					var orc io.ReadCloser
 					var oerr error
 					switch kind {
-					case "fstree", "fstreez":
+					case "fstree", "fstreez", "fstreezs":
 						_, _, orc, oerr = lay.plain.GetRangeStream(oaddr, common.PayloadRange{}, false)
 					case "combined":
 						_, _, orc, oerr = lay.comb.GetRangeStream(oaddr, common.PayloadRange{}, false)
@@ -255,7 +293,7 @@ func rangeEngine(c *runCtx) error {
 					if oerr == nil && orc != nil {
 						od, _ := io.ReadAll(orc)
 						orc.Close()
-						c.oracle("overlapping-stream-bytes-are-the-payload", string(od) == string(detPayload(osz, osz)),
+						c.oracle("overlapping-stream-bytes-are-the-payload", string(od) == string(rangePayload(kind, osz)),
 							fmt.Sprintf("%s: full read of size %d opened while another stream was open returned %d bytes", kind, osz, len(od)))
 					}
 				}
@@ -276,7 +314,7 @@ func rangeEngine(c *runCtx) error {
 				h := fnv.New32a()
 				h.Write(data)
 				c.emit(line, fmt.Sprintf("=> ok n=%d sum=%d", len(data), h.Sum32()))
-				pl := detPayload(size, size)
+				pl := rangePayload(kind, size)
 				good := wok && uint64(len(data)) == wl && string(data) == string(pl[wo:wo+wl])
 				c.oracle("range-bytes-are-the-slice", good, fmt.Sprintf("%s: got %d bytes, want payload[%d:+%d] (satisfiable=%v)", desc, len(data), wo, wl, wok))
 				if wok && wl > 0 && int(wl) < size {
@@ -376,6 +414,33 @@ func rangeEngine(c *runCtx) error {
 			api = fmt.Sprintf(" ovl=%d", rangeSizes[c.rng.IntN(len(rangeSizes))])
 		}
 		ops = append(ops, fmt.Sprintf("range read kind=%s size=%d mode=%d first=%d second=%d hdr=%d%s", kind, size, mode, first, second, c.rng.IntN(2), api))
+	}
+	// compressed objects whose stored form exceeds the header buffer: whole reads and ranges through every file-tree API
+	for _, size := range rangeSizesZS {
+		reps := c.n(6, 40)
+		if size > 1<<20 {
+			reps = c.n(3, 12)
+		}
+		for i := 0; i < reps; i++ {
+			for _, api := range []string{"", " api=parts", " api=rpr"} {
+				mode := c.rng.IntN(5)
+				if api == " api=rpr" {
+					mode = 1
+				}
+				first := uint64([]int{0, 1, 20 << 10, 40<<10 - 60, size / 2, size - 1}[c.rng.IntN(6)])
+				second := uint64([]int{0, 1, 300, 20 << 10, size / 3}[c.rng.IntN(5)])
+				if mode == 0 || mode >= 3 {
+					second = 0
+				}
+				if i == 0 {
+					mode, first, second = 0, 0, 0 // the whole object
+					if api == " api=rpr" {
+						mode, second = 1, uint64(size)
+					}
+				}
+				ops = append(ops, fmt.Sprintf("range read kind=fstreezs size=%d mode=%d first=%d second=%d hdr=%d%s", size, mode, first, second, c.rng.IntN(2), api))
+			}
+		}
 	}
 	exec(ops)
 	return nil
